@@ -47,6 +47,8 @@ type Op struct {
 	Act     string `json:"act,omitempty"` // drop | delay | dup | dropdata | delaydata | dupdata | blackout (every Interest for a segment >= 1 of the object is lost, all attempts); restart: graceful | crash
 	// consume: the fetch of the second object starts StaggerMs after the first (0 = together)
 	StaggerMs int `json:"stagger_ms,omitempty"`
+	// consume: ask by the versioned name of the newest version (no metadata discovery) instead of the object name
+	ByVersion bool `json:"by_version,omitempty"`
 	DelayMs int    `json:"delay_ms,omitempty"`
 	// restart: the producer process ends (graceful: stores closed; crash: whatever the store file holds at that
 	// instant is what survives) and a new producer starts on the durable state. DelayMs == 0: now; > 0: that long
@@ -174,26 +176,12 @@ func (Engine) Generate(prop string, r *kit.Rand, tier string) *kit.Scenario[Conf
 		sc.Ops = append(sc.Ops, o)
 	}
 	if prop == "C04" {
-		huge := []uint64{0, 1, 2, 127, 252, 253, 254, 255, 256, 65535, 65536, 1 << 31, 1<<32 - 1, 1 << 32, 1<<63 - 1, 1 << 63, 1<<64 - 1}
 		for i, n := 0, r.Range(2, 12); i < n; i++ {
 			o := Op{Op: "net", Seg: r.Range(-1, maxSegs-1), Attempt: r.Weighted([]int{6, 3, 2, 1}), Act: kit.Pick(r, []string{"corrupt", "corruptdata", "corruptdata", "corruptdata"})}
 			if second && r.Bool() {
 				o.Obj = 1
 			}
-			switch r.Weighted([]int{4, 5, 2, 3, 3, 2}) {
-			case 0:
-				o.Mut, o.At, o.Val = "len", r.Intn(64), kit.Pick(r, huge)
-			case 1:
-				o.Mut, o.At, o.Val = "lenfix", r.Intn(64), kit.Pick(r, huge)
-			case 2:
-				o.Mut, o.At = "trunc", r.Intn(9000)
-			case 3:
-				o.Mut, o.At, o.Val = "flip", r.Intn(9000), uint64(1+r.Intn(255))
-			case 4:
-				o.Mut, o.At, o.Val = "type", r.Intn(64), uint64(r.Intn(256))
-			case 5:
-				o.Mut, o.At, o.Val = "insert", r.Intn(9000), uint64(r.Intn(1<<16))
-			}
+			o.Mut, o.At, o.Val = facesim.GenMutFix(r, 64, 9000)
 			sc.Ops = append(sc.Ops, o)
 		}
 	}
@@ -235,7 +223,7 @@ func (Engine) Generate(prop string, r *kit.Rand, tier string) *kit.Scenario[Conf
 		}
 		sc.Ops = append(sc.Ops, o)
 	}
-	sc.Ops = append(sc.Ops, Op{Op: "consume", StaggerMs: stagger})
+	sc.Ops = append(sc.Ops, Op{Op: "consume", StaggerMs: stagger, ByVersion: r.Chance(0.2)})
 	if r.Chance(0.1) {
 		// a second round: publish a newer version (or restart) after the first fetch, fetch again
 		if r.Chance(0.6) {
@@ -681,7 +669,13 @@ func (e Engine) run(ctx *kit.Ctx, sc *kit.Scenario[Config, Op], res *kit.Result,
 				ctx.Probe("two-concurrent-fetches")
 			}
 			startFetch := func(f *fetch) {
-				consumer.Consume(mkName(objNames[f.obj]), func(st *object.ConsumeState) bool {
+				// the application's name slice has room to grow, as slices built with append usually do
+				nm := append(make(enc.Name, 0, 12), mkName(objNames[f.obj])...)
+				if o.ByVersion && !f.mustFail {
+					nm = append(nm, enc.NewVersionComponent(newest[f.obj]))
+					ctx.Probe("fetch-by-versioned-name")
+				}
+				consumer.Consume(nm, func(st *object.ConsumeState) bool {
 					f.progress++
 					f.got = append(f.got, st.Content()...)
 					if st.IsComplete() {
@@ -993,7 +987,7 @@ func (e Engine) run(ctx *kit.Ctx, sc *kit.Scenario[Config, Op], res *kit.Result,
 	res.SimNanos = int64(now())
 	d := kit.NewDigest().S(sc.Config.Store).I(sc.Config.SpareCap)
 	for _, o := range sc.Ops {
-		d.S(o.Op).I(o.Obj).U(o.Version).I(o.Size).I(o.Seg).I(o.Attempt).S(o.Act).I(o.DelayMs).S(o.SOp).S(o.SName).S(o.Mut).I(o.At).U(o.Val).I(o.StaggerMs)
+		d.S(o.Op).I(o.Obj).U(o.Version).I(o.Size).I(o.Seg).I(o.Attempt).S(o.Act).I(o.DelayMs).S(o.SOp).S(o.SName).S(o.Mut).I(o.At).U(o.Val).I(o.StaggerMs).S(fmt.Sprint(o.ByVersion))
 	}
 	res.Digest = d.Sum()
 	ctx.State(res.Digest)
